@@ -453,9 +453,9 @@ def model_export_to_file(f, model=None, repo=None):
     Returns:
         Nothing
     """
-    if not model and not repo:
+    if model is None and not repo:
         raise Exception("specify either a model or a repo")
-    if model and repo:
+    if model is not None and repo:
         raise Exception("specify either a model or a repo")
 
     processed_set = set()
@@ -527,12 +527,13 @@ def model_export_to_file(f, model=None, repo=None):
     def _export_subgraph(m):
         from textx import get_children
 
-        f.write(f'subgraph "cluster_{m._tx_filename}" {{\n')
+        file_name = str(m._tx_filename).replace('"', r"\"")
+        f.write(f'subgraph "cluster_{file_name}" {{\n')
         f.write(
             f"""
         penwidth=2.0
         color=darkorange4;
-        label = "{m._tx_filename}";
+        label = "{file_name}";
                     """
         )
         for obj in get_children(lambda _: True, m):
